@@ -12,7 +12,10 @@ The translation is continuation-passing: `if` statements that assign become
   let k := fun v1 .. vn => <rest> in ifT <test> (<body>; k v1 .. vn) (<orelse>; k v1 .. vn).
 """
 import ast
+import math
 import os
+
+from vlib import Suite, coqlist, blit, opt, zlit
 
 VERIFY_FUNCS = ["get_and_verify_pulse_power", "get_and_verify_hold_power", "get_and_verify_pulse_ms",
                 "get_and_verify_timed_enable_ms"]
@@ -331,7 +334,889 @@ def translate(repo, gendir):
     translate_sites(repo, gendir)
 
 
-if __name__ == "__main__":
-    import sys
-    translate(sys.argv[1], sys.argv[2])
-    print(open(os.path.join(sys.argv[2], "Driver.v")).read())
+
+# =========================================================================================================
+# the check
+ID = "C08"
+READY = True
+RULE = ("call: one request per case on a real Driver of a booted machine (virtual platform, recording proxy around "
+        "hw_driver and the coil's DelayManager): entry point drawn from pulse/enable/timed_enable/disable, their "
+        "control-event handlers (with extra junk kwargs), CoilPlayer.play (pulse/enable), Flipper.sw_flip, "
+        "PlatformController.set_pulse_on_hit_rule / set_pulse_on_hit_and_enable_and_release_rule, and the PSU-delayed "
+        "pulse; coil config drawn from the validated ranges (limits unset / at boundary / fractional); arguments from "
+        "None, in-range, exactly-at-limit, just above, 0, negative, NaN, +-inf, bool, 10**6, arbitrary floats, a few "
+        "strings. Non-trivial = at least one explicit argument or one configured limit. "
+        "verify: the four get_and_verify_* on their own (defaults computed at initialisation). "
+        "timer: 3-12 timed requests (software pulses, hardware pulses, enable, disable, waits) on one coil with/without "
+        "max_hold_duration, request times = 1 mod 4 ms and durations = 2 mod 4 ms so that no request coincides with a "
+        "deadline; non-trivial = a timer fires between two requests")
+TRUSTED_BASE = [
+    "Coq 8.16.1 kernel (coqc), vm_compute for the call-site list and for evaluating the model in the correspondence run",
+    "axioms: none (every Print Assumptions is 'Closed under the global context')",
+    "translator harness/props/c08.py (Python ast -> Gallina, fail-closed subset) for Driver.get_and_verify_*; its output "
+    "is validated against the real methods on every run (suites verify and call)",
+    "hand-written model of pulse/_pulse_now/enable/_enable_now/timed_enable/disable, of the rule-settings helpers and "
+    "of the two named delays, tied by correspondence on every run",
+    "CPython float/int comparison semantics (modelled: exact rationals + NaN, bool as int); DelayManager/asyncio clock "
+    "(modelled as two named deadlines on integer milliseconds)",
+    "the AST scan for hw_driver call sites (attribute name based: an alias stored under another attribute name and "
+    "called through it is only caught at the point where the hw driver object escapes)",
+]
+ASSUMPTIONS = [
+    "coil configs pass MPF's config validation (powers in [0,1] or None, max_pulse_ms non-negative int or None, "
+    "max_hold_duration non-negative seconds or None); a limit of 0 is read by the code as 'not configured'",
+    "+-inf and str arguments are checked by the oracle only (not representable in the model)",
+    "max_hold_duration on a 1/8 s grid so that `* 1000` is exact in floating point",
+    "platform drivers (mpf/platforms/*) execute the PulseSettings/HoldSettings they are given; digital outputs are "
+    "not coils and have no configured limits",
+]
+
+CFG_KEYS = ["allow_enable", "default_pulse_power", "default_hold_power", "max_pulse_ms", "max_pulse_power",
+            "max_hold_power", "max_hold_duration", "pulse_with_timed_enable"]
+
+
+# ---- values ------------------------------------------------------------------------------------------
+def tagv(v):
+    if v is None:
+        return None
+    if isinstance(v, bool):
+        return ["b", v]
+    if isinstance(v, int):
+        return ["i", str(v)]
+    if isinstance(v, float):
+        return ["f", repr(v)]
+    if isinstance(v, str):
+        return ["s", v]
+    return ["?", repr(v)]
+
+
+def untag(t):
+    if t is None:
+        return None
+    k = t[0]
+    if k == "b":
+        return bool(t[1])
+    if k == "i":
+        return int(t[1])
+    if k == "f":
+        return float(t[1])
+    if k == "s":
+        return t[1]
+    raise ValueError(t)
+
+
+def representable(t):
+    if t is None:
+        return True
+    if t[0] in ("b", "i"):
+        return True
+    if t[0] == "f":
+        f = float(t[1])
+        return not math.isinf(f)
+    return False
+
+
+def cv(t):
+    """tagged value -> Gallina pyval"""
+    if t is None:
+        return "PNone"
+    k = t[0]
+    if k == "b":
+        return "(PInt %d)" % int(bool(t[1]))
+    if k == "i":
+        return "(PInt %s)" % zlit(int(t[1]))
+    if k == "f":
+        f = float(t[1])
+        if f != f:
+            return "(PFloat NaN)"
+        n, d = f.as_integer_ratio()
+        return "(PFloat (Fin (%s # %d)))" % (zlit(n), d)
+    raise ValueError(t)
+
+
+# ---- generators ----------------------------------------------------------------------------------------
+POW = [0.0, 0.125, 0.25, 0.375, 0.5, 0.75, 1.0]
+
+
+def gen_cfg(rng):
+    def mp(p_none):
+        return None if rng.random() < p_none else rng.choice(POW[1:] + [rng.choice([0.1, 0.3, 1 / 3, 0.9999999])])
+    cfg = {
+        "allow_enable": rng.random() < 0.5,
+        "default_pulse_power": mp(0.6),
+        "default_hold_power": mp(0.6),
+        "max_pulse_ms": None if rng.random() < 0.45 else rng.choice([1, 10, 30, 100, 255, 256, 1000]),
+        "max_pulse_power": 1.0 if rng.random() < 0.4 else mp(0.05),
+        "max_hold_power": mp(0.55),
+        "max_hold_duration": None if rng.random() < 0.6 else rng.choice([0.125, 0.25, 1.0, 2.0, 2.5]),
+        "pulse_with_timed_enable": rng.random() < 0.12,
+        "_pulse_ms": rng.choice([10, 10, 20, 0, 255, 300, 30]),
+        "_timed_enable_ms": rng.choice([0, 0, 1, 2, 100]),
+        "plat_max_pulse": rng.choice([255, 255, 255, 100, 25]),
+    }
+    # keep the defaults consistent with the limits most of the time (a machine with default > max does not boot)
+    if rng.random() < 0.85:
+        if cfg["max_pulse_power"] and cfg["default_pulse_power"] and cfg["default_pulse_power"] > cfg["max_pulse_power"]:
+            cfg["default_pulse_power"] = cfg["max_pulse_power"]
+        if cfg["max_hold_power"] and cfg["default_hold_power"] and cfg["default_hold_power"] > cfg["max_hold_power"]:
+            cfg["default_hold_power"] = cfg["max_hold_power"]
+        if cfg["max_pulse_ms"] and cfg["_pulse_ms"] > cfg["max_pulse_ms"]:
+            cfg["_pulse_ms"] = cfg["max_pulse_ms"]
+    return {k: tagv(v) for k, v in cfg.items()}
+
+
+def gen_power(rng, lim):
+    r = rng.random()
+    if r < 0.25:
+        return None
+    if r < 0.45:
+        return rng.choice(POW)
+    if r < 0.60 and lim:
+        return rng.choice([lim, lim, math.nextafter(lim, 2.0), math.nextafter(lim, 0.0), lim / 2, lim + 0.125])
+    if r < 0.80:
+        return rng.choice([-0.5, -1.0, -0.0, -1e-300, float("nan"), float("inf"), float("-inf"), 1.0000001, 1.5, 2.5,
+                           10 ** 6, -1, 1, 0, True, False])
+    if r < 0.97:
+        return rng.uniform(-0.5, 1.5)
+    return rng.choice(["0.5", "", "nan"])
+
+
+def gen_ms(rng, lim, plat):
+    r = rng.random()
+    if r < 0.25:
+        return None
+    if r < 0.45:
+        return rng.choice([1, 5, 10, 20, 30, 100, 255])
+    if r < 0.60 and lim:
+        return rng.choice([lim, lim, lim + 1, lim - 1])
+    if r < 0.70:
+        return rng.choice([plat, plat + 1, plat - 1, 256, 500, 1000, 3000])
+    if r < 0.90:
+        return rng.choice([0, -1, -5, -255, -10 ** 6, 10 ** 6, True, False, 2.5, 10.0, float("nan"), -0.5])
+    if r < 0.97:
+        return rng.randint(-50, 400)
+    return rng.choice(["20", ""])
+
+
+ENTRIES = ["pulse", "pulse", "event_pulse", "player_pulse", "psu_pulse", "enable", "enable", "event_enable",
+           "player_enable", "sw_flip", "timed_enable", "timed_enable", "event_timed_enable", "disable", "rule_no_hold",
+           "rule_with_hold"]
+
+
+def gen_call(rng, tier, i):
+    cfg = gen_cfg(rng)
+    c = {k: untag(v) for k, v in cfg.items()}
+    entry = rng.choice(ENTRIES)
+    a = {}
+    if entry in ("pulse", "event_pulse", "player_pulse", "psu_pulse"):
+        a = {"pulse_ms": gen_ms(rng, c["max_pulse_ms"], c["plat_max_pulse"]), "pulse_power": gen_power(rng, c["max_pulse_power"])}
+    elif entry in ("enable", "event_enable", "player_enable"):
+        a = {"pulse_ms": gen_ms(rng, c["max_pulse_ms"], c["plat_max_pulse"]), "pulse_power": gen_power(rng, c["max_pulse_power"]),
+             "hold_power": gen_power(rng, c["max_hold_power"])}
+    elif entry in ("timed_enable", "event_timed_enable"):
+        mhd = c["max_hold_duration"]
+        te = gen_ms(rng, int(mhd * 1000) if mhd else None, 255)
+        if mhd and rng.random() < 0.3:
+            te = rng.choice([int(mhd), int(mhd) + 1, 1, 2, 3])
+        a = {"timed_enable_ms": te, "hold_power": gen_power(rng, c["max_hold_power"]),
+             "pulse_ms": gen_ms(rng, c["max_pulse_ms"], 255), "pulse_power": gen_power(rng, c["max_pulse_power"])}
+    elif entry == "rule_no_hold":
+        if rng.random() < 0.8:
+            a = {"pulse_ms": gen_ms(rng, c["max_pulse_ms"], 255), "pulse_power": gen_power(rng, c["max_pulse_power"])}
+            a["has_pulse"] = True
+    elif entry == "rule_with_hold":
+        if rng.random() < 0.8:
+            a = {"pulse_ms": gen_ms(rng, c["max_pulse_ms"], 255), "pulse_power": gen_power(rng, c["max_pulse_power"])}
+            a["has_pulse"] = True
+        if rng.random() < 0.8:
+            a["hold_power"] = gen_power(rng, c["max_hold_power"])
+            a["has_hold"] = True
+    # strings only where they cannot be mistaken for numbers by the model
+    args = {k: (v if k.startswith("has_") else tagv(v)) for k, v in a.items()}
+    return {"cfg": cfg, "entry": entry, "args": args}
+
+
+# ---- implementation runner ---------------------------------------------------------------------------------
+_R = {}
+
+
+class _HwProxy:
+    """Recording stand-in for the platform driver: logs what reaches the interface, forwards to the real one."""
+
+    def __init__(self, real, log):
+        self._real = real
+        self._log = log
+        self.number = real.number
+        self.config = real.config
+
+    def pulse(self, pulse_settings):
+        self._log.append(["pulse", tagv(pulse_settings.power), tagv(pulse_settings.duration)])
+        return self._real.pulse(pulse_settings)
+
+    def enable(self, pulse_settings, hold_settings):
+        self._log.append(["enable", tagv(pulse_settings.power), tagv(pulse_settings.duration),
+                          tagv(hold_settings.power), tagv(hold_settings.duration)])
+        return self._real.enable(pulse_settings, hold_settings)
+
+    def timed_enable(self, pulse_settings, hold_settings):
+        self._log.append(["timed_enable", tagv(pulse_settings.power), tagv(pulse_settings.duration),
+                          tagv(hold_settings.power), tagv(hold_settings.duration)])
+        return self._real.timed_enable(pulse_settings, hold_settings)
+
+    def disable(self):
+        self._log.append(["disable"])
+        return self._real.disable()
+
+    def get_board_name(self):
+        return self._real.get_board_name()
+
+    def __getattr__(self, n):
+        return getattr(self._real, n)
+
+
+class _DelayProxy:
+    def __init__(self, real, log):
+        self._real = real
+        self._log = log
+
+    def reset(self, ms, callback, name, **kwargs):
+        self._log.append(["delay_reset", name, tagv(ms), getattr(callback, "__name__", "?")])
+        return self._real.reset(ms, callback, name, **kwargs)
+
+    def add_if_doesnt_exist(self, ms, callback, name, **kwargs):
+        self._log.append(["delay_add_if_absent", name, tagv(ms), getattr(callback, "__name__", "?")])
+        return self._real.add_if_doesnt_exist(ms, callback, name, **kwargs)
+
+    def remove(self, name):
+        self._log.append(["delay_remove", name])
+        return self._real.remove(name)
+
+    def add(self, ms, callback, name=None, **kwargs):
+        self._log.append(["delay_add", getattr(callback, "__name__", "?")])
+        return self._real.add(ms, callback, name, **kwargs)
+
+    def __getattr__(self, n):
+        return getattr(self._real, n)
+
+
+def _boot():
+    if "rig" in _R:
+        return _R
+    import logging
+    logging.disable(logging.CRITICAL)
+    from rig import Rig
+    cfg = {
+        "switches": {"s_test": {"number": "1"}, "s_other": {"number": "2"}},
+        "coils": {"c_test": {"number": "1", "allow_enable": True}, "c_other": {"number": "2"}},
+        "flippers": {"f_test": {"main_coil": "c_test", "activation_switch": "s_test"}},
+    }
+    r = Rig(cfg).start()
+    m = r.machine
+    coil = m.coils["c_test"]
+    log = []
+    real_hw = coil.hw_driver
+    coil.hw_driver = _HwProxy(real_hw, log)
+    real_delay = coil.delay
+    coil.delay = _DelayProxy(real_delay, log)
+    plat = coil.platform
+    rules = []
+    for name in ("set_pulse_on_hit_rule", "set_pulse_on_hit_and_enable_and_release_rule"):
+        def mk(name, orig):
+            def rec(enable_switch, coil_settings, *a, **k):
+                log.append(["rule", name, tagv(coil_settings.pulse_settings.power),
+                            tagv(coil_settings.pulse_settings.duration),
+                            None if coil_settings.hold_settings is None else ["h", tagv(coil_settings.hold_settings.power)]])
+                return orig(enable_switch, coil_settings, *a, **k)
+            return rec
+        setattr(plat, name, mk(name, getattr(plat, name)))
+    _R.update(rig=r, m=m, coil=coil, log=log, real_hw=real_hw, real_delay=real_delay, plat=plat,
+              orig_features=dict(plat.features), orig_cfg={k: coil.config[k] for k in CFG_KEYS})
+    return _R
+
+
+def _apply_cfg(R, cfg):
+    coil = R["coil"]
+    c = {k: untag(v) for k, v in cfg.items()}
+    for k in CFG_KEYS:
+        coil.config[k] = c[k]
+    coil._pulse_ms = c["_pulse_ms"]
+    coil._timed_enable_ms = c["_timed_enable_ms"]
+    R["plat"].features["max_pulse"] = c["plat_max_pulse"]
+    return c
+
+
+def _reset(R):
+    coil = R["coil"]
+    R["real_delay"].clear()
+    R["real_hw"].disable()
+    for psu in R["m"].psus.values():
+        psu._busy_until = None
+    R["m"].flippers["f_test"]._enabled = False
+    R["m"].flippers["f_test"]._sw_flipped = False
+    del R["log"][:]
+
+
+def _classify(e):
+    from mpf.exceptions.driver_limits_error import DriverLimitsError
+    if isinstance(e, DriverLimitsError):
+        return "ELimits"
+    if isinstance(e, AssertionError):
+        return "EAssert"
+    if isinstance(e, TypeError):
+        return "EType"
+    return "Other:" + type(e).__name__
+
+
+def run_call(case):
+    R = _boot()
+    _reset(R)
+    c = _apply_cfg(R, case["cfg"])
+    coil, m, log, r = R["coil"], R["m"], R["log"], R["rig"]
+    a = {k: (v if k.startswith("has_") else untag(v)) for k, v in case["args"].items()}
+    entry = case["entry"]
+    out = {"err": None, "deferred": False}
+    try:
+        try:
+            if entry == "pulse":
+                coil.pulse(a["pulse_ms"], a["pulse_power"])
+            elif entry == "event_pulse":
+                coil.event_pulse(pulse_ms=a["pulse_ms"], pulse_power=a["pulse_power"], junk=1, priority=3)
+            elif entry == "player_pulse":
+                m.coil_player.play({coil: {"action": "pulse", "pulse_ms": a["pulse_ms"], "pulse_power": a["pulse_power"],
+                                           "hold_power": None, "max_wait_ms": None}}, "verif_ctx", "verif")
+            elif entry == "psu_pulse":
+                m.coils["c_other"].pulse(100)                 # makes the PSU busy for 100 + release_wait ms
+                coil.pulse(a["pulse_ms"], a["pulse_power"], max_wait_ms=1000)
+            elif entry == "enable":
+                coil.enable(a["pulse_ms"], a["pulse_power"], a["hold_power"])
+            elif entry == "event_enable":
+                coil.event_enable(pulse_ms=a["pulse_ms"], pulse_power=a["pulse_power"], hold_power=a["hold_power"], junk="x")
+            elif entry == "player_enable":
+                m.coil_player.play({coil: {"action": "enable", "pulse_ms": a["pulse_ms"], "pulse_power": a["pulse_power"],
+                                           "hold_power": a["hold_power"], "max_wait_ms": None}}, "verif_ctx", "verif")
+            elif entry == "sw_flip":
+                m.flippers["f_test"]._enabled = True
+                m.flippers["f_test"].sw_flip()
+            elif entry == "timed_enable":
+                coil.timed_enable(a["timed_enable_ms"], a["hold_power"], a["pulse_ms"], a["pulse_power"])
+            elif entry == "event_timed_enable":
+                coil.event_timed_enable(timed_enable_ms=a["timed_enable_ms"], hold_power=a["hold_power"],
+                                        pulse_ms=a["pulse_ms"], pulse_power=a["pulse_power"], junk=None)
+            elif entry == "disable":
+                coil.disable()
+            elif entry in ("rule_no_hold", "rule_with_hold"):
+                from mpf.core.platform_controller import SwitchRuleSettings, DriverRuleSettings, PulseRuleSettings, \
+                    HoldRuleSettings
+                sw = SwitchRuleSettings(switch=m.switches["s_test"], debounce=False, invert=False)
+                dr = DriverRuleSettings(driver=coil, recycle=False)
+                ps = PulseRuleSettings(power=a.get("pulse_power"), duration=a.get("pulse_ms")) if a.get("has_pulse") else None
+                if entry == "rule_no_hold":
+                    rule = m.platform_controller.set_pulse_on_hit_rule(sw, dr, ps)
+                else:
+                    hs = HoldRuleSettings(power=a.get("hold_power")) if a.get("has_hold") else None
+                    rule = m.platform_controller.set_pulse_on_hit_and_enable_and_release_rule(sw, dr, ps, hs)
+                m.platform_controller.clear_hw_rule(rule)
+            else:
+                raise ValueError(entry)
+        except Exception as e:   # noqa: what the code raises is data
+            out["err"] = _classify(e)
+        if any(x[0] == "delay_add" and x[1] == "_pulse_now" for x in log):
+            out["deferred"] = True
+            try:
+                r.advance(0.5)        # the PSU wait is at most 100 + release_wait ms
+            except Exception as e:   # noqa
+                out["err"] = _classify(e)            # raised inside the delayed _pulse_now
+        out["log"] = [list(x) for x in log if x[0] != "delay_add"]
+        if out["deferred"]:
+            # keep what the delayed _pulse_now did; a short software timer may already have fired during the wait
+            cut = [i for i, x in enumerate(out["log"]) if x[0] == "disable"]
+            if cut:
+                out["log"] = out["log"][:cut[0]]
+        # is the coil switched off again when the software timer / the watchdog is due?
+        pend = dict(R["real_delay"].delays)
+        out["pending"] = sorted(pend)
+        out["state_after_call"] = R["real_hw"].state
+        if R["real_hw"].state == "enabled" and pend:
+            wait = 0.0
+            for x in out["log"]:
+                if x[0] in ("delay_reset", "delay_add_if_absent"):
+                    ms = untag(x[2])
+                    if isinstance(ms, (int, float)) and not isinstance(ms, bool) and ms == ms and abs(ms) < 10 ** 7:
+                        wait = max(wait, ms / 1000.0)
+            n0 = len(log)
+            try:
+                r.advance(max(wait, 0.0) + 0.002)
+            except Exception as e:   # noqa
+                out["err_later"] = _classify(e)
+            out["state_when_due"] = R["real_hw"].state
+            out["log_when_due"] = [list(x) for x in log[n0:]]
+        try:
+            m.coil_player.clear_context("verif_ctx")
+        except Exception:   # noqa
+            pass
+    finally:
+        try:
+            _reset(R)
+        except Exception:   # noqa
+            pass
+    return out
+
+
+# ---- model side ----------------------------------------------------------------------------------------------
+def coq_cfg(cfg):
+    return ("{| cfg_allow_enable := %s; cfg_default_pulse_power := %s; cfg_default_hold_power := %s; "
+            "cfg_max_pulse_ms := %s; cfg_max_pulse_power := %s; cfg_max_hold_power := %s; cfg_max_hold_duration := %s; "
+            "cfg_pulse_with_timed_enable := %s; st_pulse_ms := %s; st_timed_enable_ms := %s; plat_max_pulse := %s |}" %
+            tuple(cv(cfg[k]) for k in ["allow_enable", "default_pulse_power", "default_hold_power", "max_pulse_ms",
+                                       "max_pulse_power", "max_hold_power", "max_hold_duration",
+                                       "pulse_with_timed_enable", "_pulse_ms", "_timed_enable_ms", "plat_max_pulse"]))
+
+
+def coq_req(case):
+    e, a = case["entry"], case["args"]
+    g = lambda k: cv(a.get(k))   # noqa
+    if e in ("pulse", "event_pulse", "player_pulse", "psu_pulse"):
+        return "(RPulse %s %s)" % (g("pulse_ms"), g("pulse_power"))
+    if e in ("enable", "event_enable", "player_enable"):
+        return "(REnable %s %s %s)" % (g("pulse_ms"), g("pulse_power"), g("hold_power"))
+    if e == "sw_flip":
+        return "(REnable PNone PNone PNone)"
+    if e in ("timed_enable", "event_timed_enable"):
+        return "(RTimedEnable %s %s %s %s)" % (g("timed_enable_ms"), g("hold_power"), g("pulse_ms"), g("pulse_power"))
+    if e == "disable":
+        return "RDisable"
+    ps = "(Some (%s, %s))" % (g("pulse_power"), g("pulse_ms")) if a.get("has_pulse") else "None"
+    if e == "rule_no_hold":
+        return "(RRuleNoHold %s)" % ps
+    hs = "(Some %s)" % g("hold_power") if a.get("has_hold") else "None"
+    return "(RRuleWithHold %s %s)" % (ps, hs)
+
+
+def coq_eff(x):
+    k = x[0]
+    if k == "pulse":
+        return "(HwPulse %s %s)" % (cv(x[1]), cv(x[2]))
+    if k == "enable":
+        if x[4] is not None:
+            return None
+        return "(HwEnable %s %s %s)" % (cv(x[1]), cv(x[2]), cv(x[3]))
+    if k == "timed_enable":
+        return "(HwTimedEnable %s %s %s %s)" % (cv(x[1]), cv(x[2]), cv(x[3]), cv(x[4]))
+    if k == "disable":
+        return "HwDisable"
+    if k == "delay_reset":
+        if x[1] != "timed_disable" or x[3] != "disable":
+            return None
+        return "(DelayReset %s)" % cv(x[2])
+    if k == "delay_add_if_absent":
+        if x[1] != "enable_limit_reached" or x[3] != "_enable_limit_reached":
+            return None
+        return "(DelayAddIfAbsent %s)" % cv(x[2])
+    if k == "delay_remove":
+        if x[1] != "enable_limit_reached":
+            return None
+        return "DelayRemoveLimit"
+    if k == "rule":
+        return "(RuleSettings %s %s %s)" % (cv(x[2]), cv(x[3]), "None" if x[4] is None else "(Some %s)" % cv(x[4][1]))
+    return None
+
+
+def values_of(case):
+    return list(case["cfg"].values()) + [v for k, v in case["args"].items() if not k.startswith("has_")]
+
+
+def coq_call(case, out):
+    if not all(representable(v) for v in values_of(case)):
+        return None                    # +-inf / str: oracle only
+    inp = "(%s, %s)" % (coq_cfg(case["cfg"]), coq_req(case))
+    if out["err"] is not None:
+        if out["err"] not in ("EAssert", "ELimits", "EType") or out["log"]:
+            return "(%s, (@Ok (list eff) [HwDisable; HwDisable; HwDisable]))" % inp    # cannot match: reported
+        return "(%s, (@Err (list eff) %s))" % (inp, out["err"])
+    log = out["log"]
+    if case["entry"] == "psu_pulse":
+        log = [x for x in log]        # c_other has its own (unrecorded) driver: nothing to strip
+    effs = [coq_eff(x) for x in log]
+    if any(e is None for e in effs):
+        return "(%s, (@Ok (list eff) [HwDisable; HwDisable; HwDisable]))" % inp
+    return "(%s, (@Ok (list eff) %s))" % (inp, coqlist(effs))
+
+
+HDR_CALL = ("From Coq Require Import QArith.\nFrom C08 Require Import Py Model.\nOpen Scope Z_scope.\n"
+            "Definition run := call_run.\nDefinition out_eqb := res_eqb.\n")
+
+
+# ---- oracle: the property's own predicate on what reached the platform ------------------------------------------
+def _isnum(v):
+    return isinstance(v, (int, float)) and v == v
+
+
+def _power_bad(v, lim):
+    """is v unacceptable as a power under limit lim (None/0 = not configured)?"""
+    if not _isnum(v):
+        return True
+    if v < 0 or v > 1:
+        return True
+    return bool(lim) and v > lim
+
+
+def _dur_bad(v, lim):
+    if not isinstance(v, int):
+        return True
+    if v < 0:
+        return True
+    return bool(lim) and v > lim
+
+
+def oracle_call(case, out):
+    c = {k: untag(v) for k, v in case["cfg"].items()}
+    a = {k: (v if k.startswith("has_") else untag(v)) for k, v in case["args"].items()}
+    fails = []
+
+    def bad(sig, what):
+        fails.append({"sig": sig, "what": "%s [entry=%s args=%s cfg=%s]" % (what, case["entry"], a,
+                                                                           {k: v for k, v in c.items() if v not in (None, False)})})
+    holding_allowed = bool(c["allow_enable"]) or bool(c["max_hold_power"]) or bool(c["default_hold_power"])
+    mhd_ms = c["max_hold_duration"] * 1000 if c["max_hold_duration"] else None
+    log = out["log"]
+    hw = [x for x in log if x[0] in ("pulse", "enable", "timed_enable", "rule")]
+    if out["err"] is not None and not str(out["err"]).startswith("E"):
+        bad("unexpected-exception", "the request raised %s" % out["err"])
+    if out["err"] is not None and hw:
+        bad("command-sent-by-refused-request", "request raised %s but %r reached the platform" % (out["err"], hw))
+    # 1. limits on everything that reached the platform
+    prev = None
+    for x in log:
+        k = x[0]
+        if k == "pulse":
+            p, d = untag(x[1]), untag(x[2])
+            if _power_bad(p, c["max_pulse_power"]):
+                bad("pulse-power-out-of-limits", "hw pulse with power %r" % (p,))
+            if _dur_bad(d, c["max_pulse_ms"]) or d <= 0:
+                bad("pulse-ms-out-of-limits", "hw pulse with duration %r" % (d,))
+        elif k == "enable":
+            p, d, h, hd = untag(x[1]), untag(x[2]), untag(x[3]), untag(x[4])
+            soft = prev is not None and prev[0] == "delay_reset" and prev[1] == "timed_disable"
+            if soft:
+                ms = untag(prev[2])
+                if _dur_bad(ms, c["max_pulse_ms"]):
+                    bad("soft-pulse-ms-out-of-limits", "software-timed pulse of %r ms" % (ms,))
+                if _power_bad(p, c["max_pulse_power"]) or _power_bad(h, c["max_pulse_power"]):
+                    bad("pulse-power-out-of-limits", "software-timed pulse with power %r/%r" % (p, h))
+            else:
+                if _power_bad(p, c["max_pulse_power"]):
+                    bad("pulse-power-out-of-limits", "enable with pulse power %r" % (p,))
+                if _dur_bad(d, c["max_pulse_ms"]):
+                    bad("pulse-ms-out-of-limits", "enable with pulse duration %r" % (d,))
+                if _power_bad(h, c["max_hold_power"]) or not h > 0:
+                    bad("hold-power-out-of-limits", "enable with hold power %r" % (h,))
+                if not holding_allowed:
+                    bad("held-without-permission", "coil enabled although its configuration does not allow holding")
+                if mhd_ms and "enable_limit_reached" not in out["pending"]:
+                    bad("no-watchdog", "coil enabled with max_hold_duration but no enable_limit_reached delay pending")
+        elif k == "timed_enable":
+            p, d, h, hd = untag(x[1]), untag(x[2]), untag(x[3]), untag(x[4])
+            if _power_bad(p, c["max_pulse_power"]):
+                bad("pulse-power-out-of-limits", "timed_enable with pulse power %r" % (p,))
+            if _dur_bad(d, c["max_pulse_ms"]):
+                bad("pulse-ms-out-of-limits", "timed_enable with pulse duration %r" % (d,))
+            if _power_bad(h, c["max_hold_power"]) or (h > 0 and not holding_allowed):
+                bad("hold-power-out-of-limits", "timed_enable with hold power %r" % (h,))
+            if _dur_bad(hd, mhd_ms):
+                bad("hold-duration-out-of-limits", "timed_enable with hold duration %r" % (hd,))
+        elif k == "rule":
+            p, d = untag(x[2]), untag(x[3])
+            if _power_bad(p, c["max_pulse_power"]):
+                bad("pulse-power-out-of-limits", "rule with pulse power %r" % (p,))
+            if _dur_bad(d, c["max_pulse_ms"]):
+                bad("pulse-ms-out-of-limits", "rule with pulse duration %r" % (d,))
+            if x[4] is not None:
+                h = untag(x[4][1])
+                if _power_bad(h, c["max_hold_power"]) or not h > 0 or not holding_allowed:
+                    bad("hold-power-out-of-limits", "rule with hold power %r" % (h,))
+        prev = x
+    # 2. a bad explicit argument is refused
+    checks = []
+    if "pulse_ms" in a and a["pulse_ms"] is not None:
+        checks.append(("pulse_ms", _dur_bad(a["pulse_ms"], c["max_pulse_ms"])))
+    if "pulse_power" in a and a["pulse_power"] is not None:
+        checks.append(("pulse_power", _power_bad(a["pulse_power"], c["max_pulse_power"])))
+    if "hold_power" in a and a["hold_power"] is not None:
+        checks.append(("hold_power", _power_bad(a["hold_power"], c["max_hold_power"])))
+    if "timed_enable_ms" in a and a["timed_enable_ms"] is not None:
+        checks.append(("timed_enable_ms", _dur_bad(a["timed_enable_ms"], mhd_ms)))
+    for name, isbad in checks:
+        if isbad and out["err"] is None:
+            bad("bad-%s-accepted" % name, "%s=%r was accepted" % (name, a[name]))
+    # 3. switched off again when due
+    if "state_when_due" in out and out["state_when_due"] != "disabled":
+        bad("not-switched-off-when-due", "coil still %s after its software timer / watchdog was due" % out["state_when_due"])
+    if out.get("state_after_call") == "enabled" and not out["pending"] and (mhd_ms or not holding_allowed):
+        bad("on-without-timer", "coil on with no pending off-timer")
+    return fails
+
+
+def shrink_call(case):
+    for k, v in case["args"].items():
+        if not k.startswith("has_") and v is not None:
+            yield {"cfg": case["cfg"], "entry": case["entry"], "args": dict(case["args"], **{k: None})}
+    base = {"allow_enable": tagv(False), "default_pulse_power": None, "default_hold_power": None, "max_pulse_ms": None,
+            "max_pulse_power": tagv(1.0), "max_hold_power": None, "max_hold_duration": None,
+            "pulse_with_timed_enable": tagv(False), "_pulse_ms": tagv(10), "_timed_enable_ms": tagv(0),
+            "plat_max_pulse": tagv(255)}
+    for k, v in case["cfg"].items():
+        if v != base[k]:
+            yield {"cfg": dict(case["cfg"], **{k: base[k]}), "entry": case["entry"], "args": case["args"]}
+    simple = {"event_pulse": "pulse", "player_pulse": "pulse", "psu_pulse": "pulse", "event_enable": "enable",
+              "player_enable": "enable", "event_timed_enable": "timed_enable"}
+    if case["entry"] in simple:
+        yield {"cfg": case["cfg"], "entry": simple[case["entry"]], "args": case["args"]}
+
+
+def nontrivial_call(case, out):
+    return any(v is not None for k, v in case["args"].items() if not k.startswith("has_")) or \
+        any(case["cfg"][k] is not None for k in ("max_pulse_ms", "max_hold_power", "max_hold_duration"))
+
+
+def describe_call(case):
+    return case["entry"]
+
+
+# ---- verify functions alone ------------------------------------------------------------------------------------
+VF = {"VPulseMs": "get_and_verify_pulse_ms", "VPulsePower": "get_and_verify_pulse_power",
+      "VHoldPower": "get_and_verify_hold_power", "VTimedEnableMs": "get_and_verify_timed_enable_ms"}
+
+
+def gen_verify(rng, tier, i):
+    cfg = gen_cfg(rng)
+    c = {k: untag(v) for k, v in cfg.items()}
+    f = rng.choice(sorted(VF))
+    if f in ("VPulseMs", "VTimedEnableMs"):
+        v = gen_ms(rng, c["max_pulse_ms"] if f == "VPulseMs" else c["max_hold_duration"], c["plat_max_pulse"])
+    else:
+        v = gen_power(rng, c["max_pulse_power"] if f == "VPulsePower" else c["max_hold_power"])
+    if rng.random() < 0.3:
+        v = None
+        # defaults that are themselves odd (a template can evaluate to anything)
+        if rng.random() < 0.3:
+            cfg["_pulse_ms"] = tagv(rng.choice([-5, 2.5, None, 10 ** 6]))
+            cfg["_timed_enable_ms"] = tagv(rng.choice([-5, 2.5, None, 10 ** 6]))
+    return {"cfg": cfg, "f": f, "v": tagv(v)}
+
+
+def run_verify(case):
+    R = _boot()
+    _reset(R)
+    _apply_cfg(R, case["cfg"])
+    try:
+        try:
+            return {"ok": tagv(getattr(R["coil"], VF[case["f"]])(untag(case["v"])))}
+        except Exception as e:   # noqa
+            return {"err": _classify(e)}
+    finally:
+        _reset(R)
+
+
+def coq_verify(case, out):
+    if not all(representable(v) for v in list(case["cfg"].values()) + [case["v"]]):
+        return None
+    inp = "(%s, (%s, %s))" % (coq_cfg(case["cfg"]), case["f"], cv(case["v"]))
+    if "err" in out:
+        if out["err"] not in ("EAssert", "ELimits", "EType"):
+            return "(%s, (@Ok (list eff) []))" % inp
+        return "(%s, (@Err (list eff) %s))" % (inp, out["err"])
+    if not representable(out["ok"]):
+        return None
+    return "(%s, (@Ok (list eff) [RuleSettings %s PNone None]))" % (inp, cv(out["ok"]))
+
+
+def oracle_verify(case, out):
+    c = {k: untag(v) for k, v in case["cfg"].items()}
+    v = untag(case["v"])
+    f = case["f"]
+    fails = []
+    if "ok" in out:
+        r = untag(out["ok"])
+        if f == "VPulsePower" and _power_bad(r, c["max_pulse_power"]):
+            fails.append({"sig": "bad-pulse_power-accepted", "what": "%s(%r) returned %r" % (VF[f], v, r)})
+        if f == "VHoldPower" and _power_bad(r, c["max_hold_power"]):
+            fails.append({"sig": "bad-hold_power-accepted", "what": "%s(%r) returned %r" % (VF[f], v, r)})
+        if f == "VPulseMs" and _dur_bad(r, c["max_pulse_ms"]):
+            fails.append({"sig": "bad-pulse_ms-accepted", "what": "%s(%r) returned %r" % (VF[f], v, r)})
+        if f == "VTimedEnableMs" and _dur_bad(r, c["max_hold_duration"] * 1000 if c["max_hold_duration"] else None):
+            fails.append({"sig": "bad-timed_enable_ms-accepted", "what": "%s(%r) returned %r" % (VF[f], v, r)})
+        if v is not None and not (r == v or (r != r and v != v)):
+            fails.append({"sig": "clamped-silently", "what": "%s(%r) returned %r" % (VF[f], v, r)})
+    elif not str(out["err"]).startswith("E"):
+        fails.append({"sig": "unexpected-exception", "what": "%s(%r) raised %s" % (VF[f], v, out["err"])})
+    return fails
+
+
+def shrink_verify(case):
+    for k, v in case["cfg"].items():
+        if v is not None and k not in ("max_pulse_power", "_pulse_ms", "_timed_enable_ms", "plat_max_pulse",
+                                       "allow_enable", "pulse_with_timed_enable"):
+            yield dict(case, cfg=dict(case["cfg"], **{k: None}))
+
+
+HDR_VERIFY = ("From Coq Require Import QArith.\nFrom C08 Require Import Py Model.\nOpen Scope Z_scope.\n"
+              "Definition run := verify_run.\nDefinition out_eqb := res_eqb.\n")
+
+
+# ---- timers -------------------------------------------------------------------------------------------------------
+def gen_timer(rng, tier, i):
+    mhd = rng.choice([None, None, 250, 750, 1250, 2250])      # ms, = 2 mod 4, exact in seconds
+    n = rng.randint(3, 12)
+    t = 1
+    ops = []
+    for _ in range(n):
+        t += 4 * rng.choice([0, 1, 5, 25, 50, 100, 200, 400, rng.randint(1, 300)]) if ops else 0
+        if ops and t == ops[-1][0]:
+            t += 4
+        k = rng.choice(["soft", "soft", "soft", "hw", "enable", "enable", "disable", "nop", "nop"])
+        if k == "soft":
+            ops.append([t, "soft", 2 + 4 * rng.choice([0, 1, 10, 25, 50, 100, 200, 500, rng.randint(1, 400)])])
+        else:
+            ops.append([t, k])
+    ops.append([t + 4 * rng.choice([100, 700, 1000]), "nop"])
+    return {"mhd": mhd, "ops": ops}
+
+
+def run_timer(case):
+    R = _boot()
+    _reset(R)
+    cfg = {"allow_enable": tagv(True), "default_pulse_power": None, "default_hold_power": None, "max_pulse_ms": None,
+           "max_pulse_power": tagv(1.0), "max_hold_power": None,
+           "max_hold_duration": None if case["mhd"] is None else tagv(case["mhd"] / 1000.0),
+           "pulse_with_timed_enable": tagv(False), "_pulse_ms": tagv(1), "_timed_enable_ms": tagv(0),
+           "plat_max_pulse": tagv(1)}
+    _apply_cfg(R, cfg)
+    coil, r, log = R["coil"], R["rig"], R["log"]
+    obs = []
+    try:
+        t0 = r.now()
+        for op in case["ops"]:
+            target = t0 + op[0] / 1000.0
+            d = target - r.now()
+            if d > 0:
+                r.advance(d)
+            k = op[1]
+            if k == "soft":
+                coil.pulse(pulse_ms=op[2])
+            elif k == "hw":
+                coil.pulse(pulse_ms=1)
+            elif k == "enable":
+                coil.enable()
+            elif k == "disable":
+                coil.disable()
+            dl = R["real_delay"].delays
+
+            def when(name):
+                if name not in dl:
+                    return None
+                return int(round((dl[name][0].when() - t0) * 1000))
+            # on/off from the commands that reached the driver (VirtualDriver.state also changes on a hw pulse)
+            last = [x[0] for x in log if x[0] in ("enable", "disable")]
+            obs.append([bool(last) and last[-1] == "enable", when("timed_disable"), when("enable_limit_reached")])
+        return {"obs": obs, "hw": [x[0] for x in log if x[0] in ("pulse", "enable", "disable", "timed_enable")]}
+    finally:
+        _reset(R)
+
+
+def coq_timer(case, out):
+    def cop(op):
+        k = op[1]
+        return "(%d, %s)" % (op[0], {"soft": "(TSoftPulse %d)" % (op[2] if k == "soft" else 0), "hw": "THwPulse",
+                                    "enable": "TEnable", "disable": "TDisable", "nop": "TNop"}[k])
+    zo = lambda v: "(@None Z)" if v is None else "(Some %s)" % zlit(v)   # noqa
+    inp = "(%s, %s)" % (zo(case["mhd"]), coqlist(cop(o) for o in case["ops"]))
+    exp = coqlist("(%s, (%s, %s))" % (blit(o[0]), zo(o[1]), zo(o[2])) for o in out["obs"])
+    return "(%s, (%s, true))" % (inp, exp)
+
+
+def oracle_timer(case, out):
+    """direct: whenever the coil is on, an off-timer is pending (there is always a limit or a soft pulse in this suite
+    unless the coil was enabled without max_hold_duration), and it is not overdue"""
+    fails = []
+    held = False
+    since = 0
+    prev = [False, None, None]
+    for op, o in zip(case["ops"], out["obs"]):
+        on, td, lim = o
+        if any(d is not None and d < op[0] for d in prev[1:]):
+            held = False                 # a timer fired since the last request: the coil was switched off
+        prev = o
+        if op[1] == "enable":
+            if not held:
+                since = op[0]
+            held = True
+        if not on:
+            held = False
+        for dl in (td, lim):
+            if dl is not None and dl < op[0]:
+                fails.append({"sig": "overdue-timer", "what": "a delay with deadline %d is still pending at %d" % (dl, op[0])})
+        if on and td is None and lim is None and not (held and case["mhd"] is None):
+            fails.append({"sig": "on-without-timer", "what": "coil on at t=%d with no pending off-timer (ops %r)" %
+                                                          (op[0], case["ops"])})
+        if on and held and case["mhd"] is not None and lim is not None and lim > since + case["mhd"]:
+            fails.append({"sig": "held-beyond-max-hold-duration",
+                          "what": "hold began at %d, max_hold_duration %d ms, but the watchdog is due at %d" %
+                                  (since, case["mhd"], lim)})
+        if on and held and case["mhd"] is not None and lim is None:
+            fails.append({"sig": "no-watchdog", "what": "coil held at t=%d without enable_limit_reached" % op[0]})
+    return fails[:1]
+
+
+def shrink_timer(case):
+    ops = case["ops"]
+    for i in range(len(ops)):
+        if len(ops) > 1:
+            yield {"mhd": case["mhd"], "ops": ops[:i] + ops[i + 1:]}
+
+
+def nontrivial_timer(case, out):
+    prev_on = False
+    for op, o in zip(case["ops"], out["obs"]):
+        if prev_on and not o[0] and op[1] != "disable":
+            return True
+        prev_on = o[0]
+    return False
+
+
+HDR_TIMER = ("From C08 Require Import Py Model.\nOpen Scope Z_scope.\n"
+             "Definition run := timer_run.\nDefinition out_eqb := tobs_eqb.\n")
+
+SUITES = [
+    Suite("call", gen_call, run_call, HDR_CALL, coq_call, oracle_call, shrink_call, nontrivial_call,
+          {"quick": 6000, "thorough": 60000}, describe=describe_call, shard=500),
+    Suite("verify", gen_verify, run_verify, HDR_VERIFY, coq_verify, oracle_verify, shrink_verify, None,
+          {"quick": 3000, "thorough": 30000}, describe=lambda c: c["f"], shard=500),
+    Suite("timer", gen_timer, run_timer, HDR_TIMER, coq_timer, oracle_timer, shrink_timer, nontrivial_timer,
+          {"quick": 600, "thorough": 6000}, describe=lambda c: "mhd" if c["mhd"] else "no-mhd", shard=300),
+]
+
+
+def widened_search(seed):
+    """oracle-only search with the thorough-tier generator when a proof or the translation broke"""
+    import random
+    rng = random.Random(seed ^ 0xC08)
+    for i in range(4000):
+        case = gen_call(rng, "thorough", i)
+        out = run_call(case)
+        f = oracle_call(case, out)
+        if f:
+            return {"sig": f[0]["sig"], "what": f[0]["what"], "case": case, "suite": "call"}
+    return None
+
+
+LEVEL_TEXT = ("Machine-checked proof (Coq) over the limit-verification functions regenerated from driver.py on every run "
+              "and a hand-written model of the actuation methods: every command of every accepted request is within the "
+              "configured limits, bad requests are refused, software-timed on is guarded by a pending off-timer; plus a "
+              "computed fact that every hw_driver call site is reviewed. Tied to /repo by translation and by differential "
+              "runs on a booted machine with a recording platform driver.")
+LEVEL_NOTE = ("Trusted: Coq kernel + vm_compute; no axioms; the Python-ast translator (validated by the verify/call suites); "
+              "hand model of the action methods (correspondence); CPython numeric comparison semantics as modelled; platform "
+              "drivers below the interface are out of scope.")
+TECHNIQUE = ("Coq proof over translated (T) verify functions + hand-written (H) action/timer model, differential "
+             "correspondence by vm_compute, direct limit oracle on a recording platform driver")
+DESIGN_REF = "DESIGN.md section 3, C08"
